@@ -17,6 +17,30 @@ BUILT = {
          "Theorems over every well-formed circuit tree / commutative semiring; correspondence on generated circuits x "
          "4 parameter classes x 3 semirings x fold x optimize x batch sizes {1,2,F,F+1}, exact where float64 is exact, "
          "1e-9 relative to the magnitude bound otherwise.", "DESIGN.md 4/C01"),
+ "C02": ("Lean 4 proof (fold_sound for every graph / module semantics / valid certificate, address-book gather "
+         "lemmas, rewrite identities) + correspondence: certificate of the real fold validated by the model, "
+         "flag-equivalence of compiled outputs, registry addressability",
+         "fold_sound is proved for all graphs and certificates; each run validates the certificate and address-book "
+         "entries produced by the real build_folded_graph (harness spy) with the Lean model, compares the 4 flag "
+         "combinations with each other and with the Lean evaluator after writing one valuation through the registry.",
+         "DESIGN.md 4/C02"),
+ "C03": ("Lean 4 proof (integ1_correct / integrate_correct by induction over smooth decomposable trees for any linear "
+         "functional, Fubini-free order independence) + correspondence: Lean eval of real integrate() vs Lean spec, "
+         "compiled vs brute force / quadrature",
+         "Theorem for every smooth decomposable tree, variable list and linear functional; correspondence over all "
+         "non-empty Z of generated circuits, exact over Rat for embeddings.", "DESIGN.md 4/C03"),
+ "C06": ("Lean 4 proof (evidence_correct for every tree and observation, scope, concatenate) + correspondence: Lean "
+         "eval of real evidence()/concatenate() vs Lean eval of operands; compiled vs compiled-on-overwritten-input",
+         "Theorems need no structural hypothesis; correspondence on generated circuits with heterogeneous inputs "
+         "under flags/semirings.", "DESIGN.md 4/C06"),
+ "C07": ("Lean 4 proof (conjugate_correct for any ring endomorphism, involution, commutes with real quadrature; "
+         "instance at complex conjugation) + correspondence over Q[i] exactly and floats with tolerance",
+         "Theorems for every tree; correspondence on complex embedding/polynomial circuits (exact), real circuits and "
+         "unnormalised Gaussian products.", "DESIGN.md 4/C07"),
+ "C11": ("Lean 4 proof (maskedEval = eval of integrate = per-sample marginal, mask only matters on the scope) + "
+         "correspondence: IntegrateQuery vs Lean maskedEval vs brute force vs compiled integrate()",
+         "Theorems for every smooth decomposable tree and mask; correspondence with per-sample masks in 3 forms, batch "
+         "sizes {1,2,F,F+1,5}, all flags, probs/logits/binomial/Gaussian inputs.", "DESIGN.md 4/C11"),
 }
 checks, na = [], []
 for p in props:
